@@ -58,3 +58,25 @@ Proof.
   intros v Hin. apply (lookup_of_in _ _ _ (ok_cxes_functional _ H1)) in Hin.
   cbn [accept_tls cxes] in Hin. rewrite lookup_aset_same in Hin. congruence.
 Qed.
+
+(* ------------------------------------------------------------------ several accepts in ONE service call *)
+Lemma next_fold_plain : forall cas s, next (fold_left accept_plain cas s) = next s + length cas.
+Proof. induction cas as [|c cas IH]; intro s; cbn; [lia|]. rewrite IH. cbn. lia. Qed.
+
+Lemma lookup_fold_plain_other : forall post s ca,
+  ~ In ca post -> lookup ca (ixes (fold_left accept_plain post s)) = lookup ca (ixes s).
+Proof.
+  induction post as [|c post IH]; intros s ca Hn; [reflexivity|]. cbn [fold_left].
+  rewrite IH by (intro; apply Hn; right; assumption). cbn [accept_plain ixes].
+  apply lookup_aset_other. intro; subst. apply Hn. left. reflexivity.
+Qed.
+
+(* the plain server's entry for ca after a batch is the LAST connection accepted from ca in it *)
+Lemma batch_keeps_newest m s pre ca post hs :
+  ~ In ca post ->
+  lookup ca (ixes (step false m s (ServiceConnects (pre ++ ca :: post) hs))) = Some (next s + length pre).
+Proof.
+  intro Hn. cbn [step]. rewrite fold_left_app. cbn [fold_left].
+  rewrite lookup_fold_plain_other by exact Hn. cbn [accept_plain ixes].
+  rewrite lookup_aset_same. rewrite next_fold_plain. reflexivity.
+Qed.
